@@ -23,15 +23,16 @@ from __future__ import annotations
 
 import ast
 import itertools
-from typing import Dict, List, Optional, Tuple
+from typing import Any, Dict, List, Optional, Tuple
 
+from engines import c07facts as cf
 from engines import pyfacts as pf
 from engines import sqlcard as sc
 from engines import sqlfront as sf
 from engines import sqlrules as sr
-from engines.common import AnalysisError, Ctx
+from engines.common import AnalysisError, AnchorRemoved, Ctx
 from engines.sqlast import N, text
-from engines.sqleval import UNKNOWN, ev, may
+from engines.sqleval import UNKNOWN, Unbound, ev, may
 
 META = dict(
     category='other',
@@ -61,42 +62,159 @@ REPORTING_ONLY = {
 ROOT_LEVEL = {'_create_batch_update.update', 'commit_update', 'is_batch_cancelled'}
 
 
-def _same_subject(b: N, g: N) -> Tuple[bool, str]:
+FLAG = '__c07_flag__'
+_DECLINES: List[str] = []
+
+
+def _defer(msg: str) -> None:
+    """A construct this run cannot decide: remembered, the other rules still run, the run ends as ANALYSIS-ERROR (exit 2) unless a
+    violation with positive evidence was found elsewhere."""
+    if msg not in _DECLINES:
+        _DECLINES.append(msg)
+
+
+def _flag() -> N:
+    return N('col', parts=[FLAG])
+
+
+def _known(value: Any):
+    def k(n: N) -> Any:
+        return value if (n.kind == 'col' and n.parts[-1] == FLAG) else UNKNOWN
+    return k
+
+
+def _with_flags(c: N, atoms: List[cf.Atom]) -> N:
+    return cf.replace_nodes(c, {id(a.node): _flag() for a in atoms})
+
+
+def _routine_function_names(prog: sf.SqlProgram) -> set:
+    return {n.lower() for n, r in prog.routines.items() if r.kind == 'function'}
+
+
+def _about_cancellation(e: Any, prog: sf.SqlProgram) -> bool:
+    """Could this expression consult cancellation in a way the atoms did not capture (reads the mark / ancestor tables, or calls a
+    stored function we would have to look into)?"""
+    fnames = _routine_function_names(prog)
+    for n in sc.walk(e):
+        if n.kind == 'table' and n.name.lower() in (cf.MARKS, cf.ANC):
+            return True
+        if n.kind == 'func' and n.name.lower() in fnames:
+            return True
+    return False
+
+
+def _guard_text(guard) -> List[str]:
+    return [('' if p else 'NOT ') + text(c) for c, p in guard]
+
+
+def _subject(b: N, g: N, consts: set) -> Tuple[Optional[bool], str]:
+    """Is the walk correlated on ONE subject's own (batch, group)?  True / False (a recognised other correlation) / None (not decided).
+    Table aliases and the names of routine parameters / locals are not compared with anything."""
     tb, tg = text(b).lower(), text(g).lower()
-    if b.kind == 'col' and g.kind == 'col':
-        qb = b.parts[-2].lower() if len(b.parts) > 1 else ''
-        qg = g.parts[-2].lower() if len(g.parts) > 1 else ''
-        ok = qb == qg and b.parts[-1].lower() in ('batch_id', 'id', 'in_batch_id') and g.parts[-1].lower() in ('job_group_id', 'in_job_group_id')
-        return ok, f'({tb}, {tg})'
+    subj = f'({tb}, {tg})'
     if b.kind == 'param' and g.kind == 'param':
         return True, '(%s, %s)'
-    return False, f'({tb}, {tg})'
+    if b.kind == 'lit' or g.kind == 'lit':
+        return False, subj
+    if b.kind == 'col' and g.kind == 'col':
+        qb = b.parts[-2].lower() if len(b.parts) > 1 else None
+        qg = g.parts[-2].lower() if len(g.parts) > 1 else None
+        nb, ng = b.parts[-1].lower(), g.parts[-1].lower()
+        if qb is not None and qg is not None:
+            return (qb == qg and nb in ('batch_id', 'id') and ng == 'job_group_id'), subj
+        if qb is None and qg is None:
+            if nb in consts and ng in consts:
+                return nb != ng, subj
+            if nb not in consts and ng not in consts:
+                return (nb in ('batch_id', 'id') and ng == 'job_group_id'), subj
+    return None, subj
 
 
-def r1(ctx: Ctx, prog: sf.SqlProgram) -> None:
+def _template_owner(m: pf.Module, t: 'sf.Template') -> Tuple[str, Optional[pf.FuncDef]]:
+    """The function a SQL text belongs to: the one that contains it, or - for a text held in a module-level constant / a constant of an
+    enclosing function - the single function that reads that constant."""
+    par = m.parents()
+    cur: ast.AST = t.node
+    while par.get(cur) is not None and not isinstance(cur, ast.stmt):
+        cur = par[cur]
+    name = None
+    if isinstance(cur, ast.Assign) and len(cur.targets) == 1 and isinstance(cur.targets[0], ast.Name):
+        name = cur.targets[0].id
+    elif isinstance(cur, ast.AnnAssign) and isinstance(cur.target, ast.Name):
+        name = cur.target.id
+    if name is not None:
+        scope = t.fn if t.fn is not None else m.tree
+        users = []
+        for q, f in m.functions():
+            if f is t.fn:
+                continue
+            if t.fn is not None and not any(f is x for x in ast.walk(scope)):
+                continue
+            if any(isinstance(n, ast.Name) and n.id == name and isinstance(n.ctx, ast.Load) for n in pf.walk_shallow(f)):
+                users.append((q, f))
+        here = t.fn is not None and any(isinstance(n, ast.Name) and n.id == name and isinstance(n.ctx, ast.Load) for n in pf.walk_shallow(t.fn))
+        if len(users) == 1 and not here:
+            return users[0]
+    return t.qual, t.fn
+
+
+def _bound_args(m: pf.Module, t: 'sf.Template', owner: Optional[pf.FuncDef]) -> Optional[Tuple[pf.FuncDef, Dict[int, ast.expr]]]:
+    """The execute-style call (in the owner function) that issues template t and the Python expression bound to every %s position."""
+    if owner is None:
+        return None
+    for site in cf.query_sites(m, owner):
+        for v in site.variants or []:
+            if v.sql_text == t.sql_text:
+                elts = sr.args_tuple(site.fn, site.args_expr())
+                params = []
+                for st in v.stmts():
+                    params += sr.params_in_order(st)
+                if elts is None or not params or len(elts) != len(params):
+                    return None
+                return site.fn, {p_.pos: x for p_, x in zip(params, elts)}
+    return None
+
+
+def r1(ctx: Ctx, prog: sf.SqlProgram, fns: Dict[str, Tuple[int, int]]) -> None:
     n_sites = 0
+    one_mark = ('looks up the mark of ONE group {subj} in job_groups_cancelled; nothing in the query consults job_group_self_and_ancestors: a group whose ANCESTOR was cancelled '
+                'is not seen as cancelled here (and the root lookup that stands for the whole batch is `job_group_id = 0`)')
+    own_group = ('joins job_groups_cancelled on the group\'s OWN job_group_id instead of job_group_self_and_ancestors.ancestor_id: the ancestor rows are read but only the '
+                 'group\'s own mark can match, cancelling an ancestor is not seen here')
     # stored routines
     for name, r in sorted(prog.routines.items()):
+        consts = cf.consts_of(r.ast)
+        k = 0
         for st in sf.all_statements(r.ast.body):
             for sel in sr.cancelled_sites(st):
+                k += 1
                 n_sites += 1
-                cons = f'{r.file}::{name}::{text(sel)[:70]}'
-                w = sr.ancestor_walk(sel)
-                if w is not None:
-                    ok, subj = _same_subject(w['batch'], w['group'])
+                cons = f'sql::{name}::cancellation lookup #{k}'
+                w = cf.walk_shape(sel)
+                if w is not None and w['kind'] == 'ancestors':
+                    ok, subj = _subject(w['batch'], w['group'], consts)
+                    if ok is None:
+                        _defer(f'{name}: the ancestor walk is correlated on {subj}; whether that is one subject\'s own (batch_id, job_group_id) is not decided')
+                        continue
                     ctx.check(ok, 'R1', cons, f'ancestor walk is correlated on {subj}, which is not one subject\'s own (batch_id, job_group_id)', r.file, r.line_of(st), detail='canonical ' + subj)
                     continue
-                rl = sr.root_lookup(sel)
-                if rl is not None and name in ROOT_LEVEL and text(rl['group']) == '0':
-                    ctx.ok('R1', cons, 'root lookup')
+                if w is not None:
+                    ctx.bad('R1', cons, f'{name} {own_group}', r.file, r.line_of(st))
                     continue
-                ctx.bad('R1', cons, 'stored routine consults job_groups_cancelled neither through the self-and-ancestors walk nor as a root lookup in a batch-level routine: '
-                        'cancelling an ancestor (or only a sibling) is seen wrongly here', r.file, r.line_of(st))
+                mo = cf.marks_only(sel, fns)
+                if mo is not None and mo['group'] is not None:
+                    if mo['group'].kind == 'lit' and mo['group'].value == 0:
+                        ctx.ok('R1', cons, 'root lookup')
+                    else:
+                        ctx.bad('R1', cons, f'{name} ' + one_mark.format(subj=f'({text(mo["batch"])}, {text(mo["group"])})'), r.file, r.line_of(st))
+                    continue
+                _defer(f'{name}: `{text(sel)[:90]}` consults job_groups_cancelled in a shape that is neither the self-and-ancestors walk nor a single-mark lookup: not classified')
     # python
     for rel in pf.walk_py(['batch/batch']):
         m = pf.load(rel)
         if 'job_groups_cancelled' not in m.src:
             continue
+        per_fn: Dict[str, int] = {}
         for t in sf.templates_in(m, ['job_groups_cancelled']):
             sts = t.stmts()
             if t.parse_error:
@@ -106,224 +224,633 @@ def r1(ctx: Ctx, prog: sf.SqlProgram) -> None:
                     ctx.bad('R1', f'{rel}::{t.qual}::INSERT INTO job_groups_cancelled', 'cancellation is recorded outside the cancel procedures', m.path, t.lineno)
                 for sel in sr.cancelled_sites(st):
                     n_sites += 1
-                    cons = f'{rel}::{t.qual}::{text(sel)[:70]}'
-                    w = sr.ancestor_walk(sel)
-                    rl = sr.root_lookup(sel)
-                    reporting = t.qual in REPORTING_ONLY
-                    if w is not None:
-                        ok, subj = _same_subject(w['batch'], w['group'])
+                    qual, owner = _template_owner(m, t)
+                    per_fn[qual] = per_fn.get(qual, 0) + 1
+                    cons = f'{rel}::{qual}::cancellation lookup #{per_fn[qual]}'
+                    w = cf.walk_shape(sel)
+                    reporting = qual in REPORTING_ONLY
+                    if w is not None and w['kind'] == 'ancestors':
+                        ok, subj = _subject(w['batch'], w['group'], set())
                         if ok and w['batch'].kind == 'param':
-                            # bound python values must be (batch id, a job-group id) of one subject
-                            emb = [e for e in sf.embedded_in(m) if e.call.args and any(t.node is x for x in ast.walk(e.call.args[0])) or (e.fn is t.fn and e.sql_text == t.sql_text)]
-                            if emb:
-                                e = emb[0]
-                                elts = sr.args_tuple(e.fn, e.call.args[1] if len(e.call.args) > 1 else None)
-                                params = sr.params_in_order(e.stmts()[0]) if e.stmts() else []
-                                if elts is not None and len(elts) == len(params):
-                                    bind = {p.pos: pf.nsrc(x) for p, x in zip(params, elts)}
-                                    pb, pg = bind.get(w['batch'].pos), bind.get(w['group'].pos)
-                                    ok = pb is not None and pg is not None and 'batch_id' in pb and 'job_group_id' in pg
-                                    subj = f'({pb}, {pg})'
+                            # the bound python values must at least be two different expressions
+                            ba = _bound_args(m, t, owner)
+                            if ba is not None:
+                                efn, bind = ba
+                                pb, pg = bind.get(w['batch'].pos), bind.get(w['group'].pos)
+                                if pb is not None and pg is not None:
+                                    subj = f'({pf.nsrc(pb)}, {pf.nsrc(pg)})'
+                                    ok = ast.dump(pf.expand_locals(efn, pb)) != ast.dump(pf.expand_locals(efn, pg))
+                        if ok is None and not reporting:
+                            _defer(f'{rel}::{qual}: the ancestor walk is correlated on {subj}; whether that is one subject\'s own (batch_id, job_group_id) is not decided')
+                            continue
                         if ok or reporting:
                             ctx.ok('R1', cons, ('canonical ' if ok else 'reporting-only deviation ') + subj)
                             if not ok:
-                                ctx.info(f'C07 reporting-only site {rel}::{t.qual} correlates the walk on {subj}')
+                                ctx.info(f'C07 reporting-only site {rel}::{qual} correlates the walk on {subj}')
                         else:
                             ctx.bad('R1', cons, f'ancestor walk is correlated on {subj}, which is not one subject\'s own (batch_id, job_group_id): groups would be treated as cancelled '
                                     'because of an unrelated group, or not although an ancestor is', m.path, t.lineno)
                         continue
-                    if rl is not None and t.qual in ROOT_LEVEL:
+                    if reporting:
+                        ctx.ok('R1', cons, f'reporting-only: {REPORTING_ONLY[qual]}', nontrivial=False)
+                        ctx.info(f'C07 reporting-only site {rel}::{qual} consults job_groups_cancelled without the ancestor walk ({REPORTING_ONLY[qual]})')
+                        continue
+                    if w is not None:
+                        ctx.bad('R1', cons, f'{qual} {own_group}', m.path, t.lineno)
+                        continue
+                    mo = cf.marks_only(sel, fns)
+                    if mo is not None and mo['group'] is not None:
+                        g = mo['group']
+                        root: Optional[bool] = None
+                        gtxt = text(g)
+                        if g.kind == 'lit':
+                            root = g.value == 0
+                        elif g.kind == 'param':
+                            ba = _bound_args(m, t, owner)
+                            if ba is not None and ba[1].get(g.pos) is not None:
+                                efn, bind = ba
+                                gtxt = pf.nsrc(bind[g.pos])
+                                v = cf.py_const_int(m, efn, bind[g.pos])
+                                x = bind[g.pos]
+                                if v is not None:
+                                    root = v == 0
+                                elif isinstance(x, ast.Name) and x.id.isupper():
+                                    root = None    # a constant we could not resolve
+                                elif isinstance(x, (ast.Name, ast.Subscript, ast.Attribute)):
+                                    root = False   # bound to a run-time value (a variable / a record field): one particular group
+                        elif g.kind == 'col':
+                            root = False
+                        if root:
+                            ctx.ok('R1', cons, 'root lookup (batch-level question)')
+                            continue
+                        if root is None and qual in ROOT_LEVEL:
+                            ctx.ok('R1', cons, 'root lookup (batch-level admission)')
+                            continue
+                        if root is False:
+                            ctx.bad('R1', cons, f'{qual} ' + one_mark.format(subj=f'(.., {gtxt})'), m.path, t.lineno)
+                            continue
+                    if mo is not None and qual in ROOT_LEVEL:
                         ctx.ok('R1', cons, 'root lookup (batch-level admission)')
                         continue
-                    if reporting:
-                        ctx.ok('R1', cons, f'reporting-only: {REPORTING_ONLY[t.qual]}', nontrivial=False)
-                        ctx.info(f'C07 reporting-only site {rel}::{t.qual} consults job_groups_cancelled without the ancestor walk ({REPORTING_ONLY[t.qual]})')
+                    if mo is not None and mo['group'] is None and _joined_on_own_group(sel):
+                        # a table joined to its marks on the rows' own key, no ancestors anywhere in the query
+                        ctx.bad('R1', cons, f'{qual} ' + one_mark.format(subj='(the joined rows\' own batch_id, job_group_id)'), m.path, t.lineno)
                         continue
-                    ctx.bad('R1', cons, 'behaviour-relevant code consults job_groups_cancelled without the self-and-ancestors walk (or a root lookup at a batch-level site): '
-                            'a job under a cancelled ancestor group is not seen as cancelled here', m.path, t.lineno)
+                    _defer(f'{rel}::{qual}: `{text(sel)[:90]}` consults job_groups_cancelled in a shape that is neither the self-and-ancestors walk nor a single-mark lookup: not classified')
     ctx.unit('cancellation_lookups_classified', n_sites)
 
 
-def r2(ctx: Ctx, prog: sf.SqlProgram) -> None:
-    r = prog.routine('jobs_before_insert')
-    a = r.ast
-    ok = a.rkind == 'trigger' and a.timing == 'BEFORE' and a.event == 'INSERT' and a.table.lower() == 'jobs'
-    sig = [(st, g) for st, g in sf.guarded_statements(a.body) if st.kind == 'signal']
-    good = False
-    for st, g in sig:
-        for c, pol in g:
-            if pol and c.kind == 'func' and c.name == 'IS_JOB_GROUP_CANCELLED' and [text(x).lower() for x in c.args] == ['new.batch_id', 'new.job_group_id']:
-                good = True
-            if pol and sr.is_var(c):
-                env = sr.inline_sets(a.body, sr.declared_vars(a))
-                e = env.get(c.parts[0].lower())
-                if e is not None and e.kind == 'exists':
-                    w = sr.ancestor_walk(e.select)
-                    good = w is not None and text(w['batch']).lower() == 'new.batch_id' and text(w['group']).lower() == 'new.job_group_id'
-    ctx.check(ok and good, 'R2', f'{r.file}::jobs_before_insert', 'inserting a job is not refused (SIGNAL) when the job\'s own group or an ancestor is cancelled', r.file, r.line)
-    m = pf.load('batch/batch/front_end/front_end.py')
+def _joined_on_own_group(sel: N) -> bool:
+    """T JOIN job_groups_cancelled C ON T.batch_id = C.id AND T.job_group_id = C.job_group_id (either orientation, ON or WHERE)."""
+    tabs = [t for t in sf.from_tables(sel.frm) if t.kind == 'table']
+    if len(tabs) != 2:
+        return False
+    ca = [(t.alias or t.name).lower() for t in tabs if t.name.lower() == cf.MARKS]
+    oa = [(t.alias or t.name).lower() for t in tabs if t.name.lower() != cf.MARKS]
+    if len(ca) != 1 or len(oa) != 1:
+        return False
+    conj = list(sf.conjuncts(sel.where))
+    for j in sel.frm.joins:
+        conj += sf.conjuncts(j.on)
+    pairs = set()
+    for c in conj:
+        if c.kind == 'bin' and c.op == '=' and c.left.kind == 'col' and c.right.kind == 'col' and len(c.left.parts) > 1 and len(c.right.parts) > 1:
+            l = (c.left.parts[-2].lower(), c.left.parts[-1].lower())
+            r = (c.right.parts[-2].lower(), c.right.parts[-1].lower())
+            for x, y in ((l, r), (r, l)):
+                if x[0] == oa[0] and y[0] == ca[0]:
+                    pairs.add((x[1], y[1]))
+    return ('job_group_id', 'job_group_id') in pairs and (('batch_id', 'id') in pairs or ('id', 'id') in pairs)
+
+
+# ------------------------------------------------------------------------------------------------------------------------------------
+# R2 admission
+
+def _trigger_refusal(ctx: Ctx, prog: sf.SqlProgram, fns: Dict[str, Tuple[int, int]], roots: Dict[str, int]) -> None:
+    trigs = [r for r in prog.triggers_on('jobs', 'INSERT') if r.ast.timing == 'BEFORE']
+    if not trigs:
+        prog.routine('jobs_before_insert')   # AnchorRemoved / anchor vanished
+        raise AnalysisError('no BEFORE INSERT trigger on jobs')
+    want = ('new.batch_id', 'new.job_group_id')
+    good = None
+    evidence: List[Tuple[sf.Routine, N, str]] = []
+    undecided: List[str] = []
+    n_signals = 0
+    for r in trigs:
+        a = r.ast
+        defs = cf.Definitions(a.body, cf.consts_of(a))
+        for st, g in sf.guarded_statements(a.body):
+            if st.kind != 'signal':
+                continue
+            n_signals += 1
+            res = [(defs.resolve(c, st), p) for c, p in g]
+            atoms: List[cf.Atom] = []
+            conditional: List[Tuple[str, cf.Def]] = []
+            for (c2, cond), _ in res:
+                atoms += cf.cancel_atoms(c2, fns, roots)
+                conditional += cond
+            mine = [x for x in atoms if x.kind == 'walk' and x.subject() == want]
+            forced = bool(mine) and all(may(_with_flags(c2, mine), _known(1)) == {p} for (c2, _), p in res)
+            if forced:
+                good = r
+                continue
+            # why not?
+            cond_atoms = [(k, d) for k, d in conditional if d.value is not None and cf.cancel_atoms(d.value, fns, roots)]
+            if cond_atoms:
+                k, d = cond_atoms[0]
+                evidence.append((r, st, f'the SIGNAL tests `{k}`, which is assigned from `{text(d.value)[:70]}` only under {_guard_text(d.guard) or "an earlier statement that does not always run"}: on the other paths '
+                                        f'(e.g. the next row of a multi-row INSERT, or the next statement on this connection) the variable keeps an older answer and a job is accepted beneath a group that was cancelled in between'))
+            elif mine:
+                extra = [text(c2) for (c2, _), p in res if may(_with_flags(c2, mine), _known(1)) != {p}]
+                if any(_about_cancellation(_with_flags(c2, mine), prog) for (c2, _), p in res) or conditional:
+                    undecided.append(f'{r.name}: the refusal also depends on {extra}')
+                else:
+                    evidence.append((r, st, f'the refusal also depends on {extra}: a job whose group (or an ancestor) is cancelled is still inserted when that does not hold'))
+            elif atoms:
+                evidence.append((r, st, f'the SIGNAL is guarded by a cancellation test on {sorted({x.kind + str(x.subject()) for x in atoms})}, not by the ancestor walk of the inserted job\'s own '
+                                        f'(NEW.batch_id, NEW.job_group_id): a job under a cancelled sub-group is accepted'))
+            else:
+                if any(_about_cancellation(c2, prog) for (c2, _), _ in res) or conditional or any(c.kind == 'col' and cf.vkey(c) for (c2, _), _ in res for c in sf.cols_in(c2)
+                                                                                                 if cf.vkey(c) and cf.vkey(c) in cf.consts_of(a)):
+                    undecided.append(f'{r.name}: SIGNAL under {_guard_text(g)} not understood')
+    cons = 'sql::jobs BEFORE INSERT trigger::refuses jobs under a cancelled group'
+    if good is not None:
+        ctx.ok('R2', cons, f'{good.name}: SIGNAL forced by the ancestor walk of (NEW.batch_id, NEW.job_group_id)')
+        return
+    r0 = trigs[0]
+    if evidence:
+        r, st, why = evidence[0]
+        ctx.bad('R2', cons, f'{r.name}: inserting a job is not always refused (SIGNAL) when the job\'s own group or an ancestor is cancelled: {why}', r.file, r.line_of(st))
+        return
+    if undecided:
+        _defer('; '.join(undecided))
+        return
+    # no SIGNAL that has anything to do with cancellation: is that a fact or an unread shape?
+    whole = [st for r in trigs for st in sf.all_statements(r.ast.body)]
+    if any(_about_cancellation(st, prog) or st.kind == 'call' for st in whole if st.kind not in ('if', 'block', 'loop', 'while')) or \
+            any(_about_cancellation(c, prog) for st in whole if st.kind == 'if' for c, _ in st.branches):
+        _defer(f'{r0.name}: the trigger consults cancellation but no SIGNAL guarded by it was recognised')
+        return
+    ctx.bad('R2', cons, f'{r0.name}: inserting a job is not refused (SIGNAL) when the job\'s own group or an ancestor is cancelled: the BEFORE INSERT trigger(s) on jobs '
+            f'({[r.name for r in trigs]}) contain {"no SIGNAL" if not n_signals else "no SIGNAL that depends on cancellation"} and never consult job_groups_cancelled', r0.file, r0.line)
+
+
+def _resolve_py_const(m: pf.Module, fn: Optional[pf.FuncDef], e: ast.expr) -> Optional[int]:
+    return cf.py_const_int(m, fn, e)
+
+
+def _handler_1644(ctx: Ctx, m: pf.Module) -> None:
     fn = m.func('_create_jobs.insert_jobs_into_db')
-    h_ok = False
-    for n in ast.walk(fn):
-        if isinstance(n, ast.ExceptHandler) and n.type is not None and 'OperationalError' in pf.nsrc(n.type):
-            for s in ast.walk(n):
-                if isinstance(s, ast.If) and '1644' in pf.nsrc(s.test) and any(isinstance(x, ast.Raise) and 'HTTPBadRequest' in pf.nsrc(x) for x in s.body):
-                    h_ok = True
-    ctx.check(h_ok, 'R2', f'{m.rel}::_create_jobs.insert_jobs_into_db::error 1644', 'the trigger\'s refusal (MySQL error 1644) is not turned into HTTP 400 for the client', m.path, fn.lineno)
-    # _create_job_group: walk on the parent, raise before the insert
-    fn = m.func('_create_job_group')
-    g = pf.cfg(fn)
-    embs = [e for e in sf.embedded_in(m) if e.fn is fn]
-    walk_e = None
-    for e in embs:
-        for st in e.stmts():
-            for sel in sr.cancelled_sites(st):
-                if sr.ancestor_walk(sel) is not None:
-                    walk_e = e
-    ins_e = [e for e in embs if any(st.kind == 'insert' and st.table.lower() == 'job_groups' for st in e.stmts())]
-    ctx.need(walk_e is not None and len(ins_e) == 1, '_create_job_group: parent walk / insert not found')
-    elts = sr.args_tuple(fn, walk_e.call.args[1])
-    wst = walk_e.stmts()[0]
-    wk = [sr.ancestor_walk(sel) for sel in sr.cancelled_sites(wst)][0]
-    params = sr.params_in_order(wst)
-    bind = {p_.pos: pf.nsrc(x) for p_, x in zip(params, elts or [])} if elts is not None and len(elts) == len(params) else {}
-    key = (bind.get(getattr(wk['batch'], 'pos', None)), bind.get(getattr(wk['group'], 'pos', None)))
-    ctx.check(key == ('batch_id', 'parent_job_group_id') and walk_e.receiver == 'tx', 'R2', f'{m.rel}::_create_job_group::parent walk key',
-              f'the cancelled-ancestor test is keyed by {key}, expected (batch_id, parent_job_group_id) in the same transaction', m.path, walk_e.lineno)
-    ins_nodes = g.node_of(ins_e[0].call)
-    walk_nodes = g.node_of(walk_e.call)
-    ctx.need(ins_nodes and walk_nodes, '_create_job_group: CFG nodes not found')
-    var = None
-    st_ = walk_nodes[0].ast
-    if isinstance(st_, ast.Assign):
-        var = pf.nsrc(st_.targets[0])
-    tests = g.find(lambda n: n.kind == 'test' and var is not None and pf.nsrc(n.ast) == f'{var} is not None')
-    refuses = bool(tests) and all(any(s.kind == 'raise' and 'HTTPBadRequest' in pf.nsrc(s.ast) for s, lab in t.succ if lab == 'T') for t in tests)
-    reach = g.path_avoiding(g.entry, lambda n: n is ins_nodes[0], lambda n: False, edge_ok=lambda a_, b_, lab: not (a_ in tests and lab == 'F')) is None
-    ctx.check(refuses and reach and g.dominated_by(ins_nodes[0], lambda n: n is walk_nodes[0]), 'R2', f'{m.rel}::_create_job_group::refuses cancelled parent',
-              'a sub-group can be inserted without first finding that no self-or-ancestor of the parent is cancelled (HTTP 400 otherwise)', m.path, ins_e[0].lineno)
-    # _create_batch_update refuses a cancelled batch
-    fn = m.func('_create_batch_update.update')
-    g = pf.cfg(fn)
-    tests = g.find(lambda n: n.kind == 'test' and pf.nsrc(n.ast) == "record['cancelled']")
-    ins = g.find(lambda n: any(pf.const_str(c.args[0]) is not None and 'INSERT INTO batch_updates' in pf.const_str(c.args[0]) for c in pf.node_calls(n) if c.args))
-    ctx.need(ins, '_create_batch_update: INSERT INTO batch_updates not found')
-    ok = bool(tests) and all(any(s.kind == 'raise' and 'HTTPBadRequest' in pf.nsrc(s.ast) for s, lab in t.succ if lab == 'T') for t in tests) and \
-        g.path_avoiding(g.entry, lambda n: n is ins[0], lambda n: False, edge_ok=lambda a_, b_, lab: not (a_ in tests and lab == 'F')) is None
-    ctx.check(ok, 'R2', f'{m.rel}::_create_batch_update.update::refuses cancelled batch', 'a new update can be opened on a cancelled batch', m.path, fn.lineno)
+    cons = f'{m.rel}::_create_jobs.insert_jobs_into_db::error 1644'
+    sites = [s for s in cf.query_sites(m, fn) if s.variants and any(st.kind == 'insert' and st.table.lower() == 'jobs' for v in s.variants for st in v.stmts())]
+    if len(sites) != 1:
+        _defer('_create_jobs.insert_jobs_into_db: the INSERT INTO jobs was not found')
+        return
+    par = m.parents()
+    cur: Optional[ast.AST] = sites[0].call
+    tr = None
+    while cur is not None and cur is not fn:
+        p = par.get(cur)
+        if isinstance(p, ast.Try) and any(cur is s for s in p.body):
+            tr = p
+            break
+        cur = p
+    if tr is None:
+        _defer('_create_jobs.insert_jobs_into_db: the INSERT INTO jobs is not inside a try; where MySQL error 1644 (the trigger\'s SIGNAL) becomes HTTP 400 is not analysed')
+        return
+    hs = [h for h in tr.handlers if h.type is None or any(k in pf.nsrc(h.type) for k in ('OperationalError', 'MySQLError', 'Exception', 'Error'))]
+    for h in hs:
+        tests_1644 = [s for s in ast.walk(h) if isinstance(s, ast.If) and 1644 in {cf.py_const_int(m, fn, x) for x in ast.walk(s.test) if isinstance(x, (ast.Constant, ast.Name))}]
+        raises_400 = [x for x in ast.walk(h) if isinstance(x, ast.Raise) and x.exc is not None and 'HTTPBadRequest' in pf.nsrc(x.exc)]
+        if tests_1644 and raises_400:
+            ctx.ok('R2', cons, 'OperationalError 1644 -> HTTPBadRequest')
+            return
+    swallowing = [h for h in hs if h.type is not None and 'OperationalError' in pf.nsrc(h.type) and not any(isinstance(x, ast.Raise) for x in ast.walk(h))]
+    if swallowing:
+        ctx.bad('R2', cons, 'the trigger\'s refusal (MySQL error 1644) is caught by a handler that never raises: the request is answered as a success although the jobs were not inserted, '
+                'instead of HTTP 400', m.path, swallowing[0].lineno)
+        return
+    _defer('_create_jobs.insert_jobs_into_db: how MySQL error 1644 (the trigger\'s refusal) is turned into HTTP 400 was not recognised')
 
 
-def r3(ctx: Ctx, prog: sf.SqlProgram) -> None:
+def _row_test(fn: pf.FuncDef, test: ast.expr, var: str) -> Optional[bool]:
+    """Is `test` a row-existence test of the fetchone result `var`?  True: test true <=> a row was found; False: the opposite; None: no."""
+    t, pol = cf.norm_test(fn, test, True)
+    if isinstance(t, ast.Name) and t.id == var:
+        return pol
+    if isinstance(t, ast.Compare) and len(t.ops) == 1 and isinstance(t.left, ast.Name) and t.left.id == var and isinstance(t.comparators[0], ast.Constant) and t.comparators[0].value is None:
+        if isinstance(t.ops[0], (ast.IsNot, ast.NotEq)):
+            return pol
+        if isinstance(t.ops[0], (ast.Is, ast.Eq)):
+            return not pol
+    return None
+
+
+def _field_test(fn: pf.FuncDef, test: ast.expr, var: str, fields: Dict[str, bool]) -> Optional[bool]:
+    """Is `test` a truthiness test of var['<flag column>']?  True: test true <=> cancelled."""
+    t, pol = cf.norm_test(fn, test, True)
+    rf = cf.record_field(t)
+    if rf is not None and rf[0] == var and rf[1].lower() in fields:
+        return pol if fields[rf[1].lower()] else not pol
+    return None
+
+
+def _other_uses(fn: pf.FuncDef, var: str, tests: List[ast.expr]) -> bool:
+    """Is `var` (or a single-definition local computed from it) used anywhere but in the recognised tests?"""
+    names = {var}
+    changed = True
+    while changed:
+        changed = False
+        for n in pf.walk_shallow(fn):
+            if isinstance(n, ast.Assign) and len(n.targets) == 1 and isinstance(n.targets[0], ast.Name) and n.targets[0].id not in names and pf.names_in(n.value) & names \
+                    and not isinstance(n.value, ast.Await):
+                names.add(n.targets[0].id)
+                changed = True
+    in_tests = {id(x) for t in tests for x in ast.walk(t)}
+    for n in pf.walk_shallow(fn):
+        if isinstance(n, ast.Name) and isinstance(n.ctx, ast.Load) and n.id in names and id(n) not in in_tests:
+            # uses inside the defining assignments of derived locals are fine
+            par_assign = False
+            for a in pf.walk_shallow(fn):
+                if isinstance(a, ast.Assign) and len(a.targets) == 1 and isinstance(a.targets[0], ast.Name) and a.targets[0].id in names and any(n is x for x in ast.walk(a.value)):
+                    par_assign = True
+            if not par_assign:
+                return True
+    return False
+
+
+def _refusal(ctx: Ctx, m2: pf.Module, fn: pf.FuncDef, cons: str, probe: cf.QSite, inserts: List[cf.QSite], classify, what: str, message: str) -> None:
+    """The probe's result is tested, the `cancelled` outcome raises, and no insert is reachable without having taken the
+    `not cancelled` outcome of such a test."""
+    g = pf.cfg(fn)
+    pn = g.node_of(probe.call)
+    if not pn or not isinstance(pn[0].ast, (ast.Assign, ast.AnnAssign)):
+        _defer(f'{what}: the result of the cancellation probe is not assigned to a local')
+        return
+    tgt = pn[0].ast.targets[0] if isinstance(pn[0].ast, ast.Assign) else pn[0].ast.target
+    if not isinstance(tgt, ast.Name):
+        _defer(f'{what}: the result of the cancellation probe is not assigned to a plain local')
+        return
+    var = tgt.id
+    tests = []   # (node, label of the edge taken when cancelled)
+    for n in g.find(lambda n: n.kind == 'test'):
+        pol = classify(n.ast, var)
+        if pol is not None:
+            tests.append((n, 'T' if pol else 'F'))
+    ins_nodes = [x for s in inserts for x in g.node_of(s.call)]
+    if not ins_nodes:
+        _defer(f'{what}: CFG node of the insert not found')
+        return
+    refuses = bool(tests) and all(any(s.kind == 'raise' for s, lab in t.succ if lab == cl) for t, cl in tests)
+    tn = {id(t): cl for t, cl in tests}
+    unguarded = [i for i in ins_nodes if g.path_avoiding(g.entry, lambda n, i=i: n is i, lambda n: False,
+                                                         edge_ok=lambda a_, b_, lab: not (id(a_) in tn and lab != tn[id(a_)])) is not None]
+    after_probe = all(g.dominated_by(i, lambda n: n is pn[0]) for i in ins_nodes)
+    if refuses and not unguarded and after_probe:
+        ctx.ok('R2', cons, f'`{var}` tested at {[t.lineno for t, _ in tests]}, cancelled -> raise, insert only on the other edge')
+        return
+    if _other_uses(fn, var, [t.ast for t, _ in tests]):
+        _defer(f'{what}: the result `{var}` of the cancellation probe is also used in a way that is not recognised (passed on / stored); whether the insert is refused is not decided')
+        return
+    if tests and not refuses and any(any(s.kind in ('return',) for s, lab in t.succ if lab == cl) for t, cl in tests):
+        _defer(f'{what}: the cancelled outcome returns instead of raising; not decided')
+        return
+    ctx.bad('R2', cons, message + (f' (the probe\'s result `{var}` is {"never tested" if not tests else "tested, but the cancelled outcome does not raise" if not refuses else "tested, but an insert is reachable without passing the not-cancelled outcome"})'),
+            m2.path, inserts[0].lineno)
+
+
+def _bind(site: cf.QSite, st: N) -> Optional[Dict[int, ast.expr]]:
+    elts = sr.args_tuple(site.fn, site.args_expr())
+    params = sr.params_in_order(st)
+    if elts is None or len(elts) != len(params):
+        return None
+    return {p.pos: x for p, x in zip(params, elts)}
+
+
+def _pyexpr_key(fn: pf.FuncDef, e: ast.expr) -> str:
+    return ast.dump(pf.expand_locals(fn, e))
+
+
+def _create_job_group_rule(ctx: Ctx, m: pf.Module, fns: Dict[str, Tuple[int, int]]) -> None:
+    m2, fn, helpers = cf.inlined(m, '_create_job_group')
+    sites = cf.query_sites(m2, fn)
+    walk_s = ins_s = None
+    copy_key = None
+    for s in sites:
+        for v in s.variants or []:
+            for st in v.stmts():
+                if st.kind == 'select' and any(cf.walk_shape(sel) is not None for sel in sr.cancelled_sites(st)):
+                    walk_s = walk_s or (s, st)
+                if st.kind == 'insert' and st.table.lower() == 'job_groups':
+                    ins_s = ins_s or s
+                if st.kind == 'insert' and st.table.lower() == cf.ANC and st.select is not None and [t.lower() for t in sf.table_names(st.select.frm)] == [cf.ANC]:
+                    # the new group inherits the ancestor rows of (batch, parent): INSERT .. SELECT .. FROM ancestors WHERE batch_id = B AND job_group_id = P
+                    b = _bind(s, st)
+                    kb = kp = None
+                    for c in sf.conjuncts(st.select.where):
+                        if c.kind == 'bin' and c.op == '=':
+                            for x, y in ((c.left, c.right), (c.right, c.left)):
+                                if x.kind == 'col' and y.kind == 'param' and b is not None:
+                                    if x.parts[-1].lower() == 'batch_id':
+                                        kb = b.get(y.pos)
+                                    elif x.parts[-1].lower() == 'job_group_id':
+                                        kp = b.get(y.pos)
+                    if kb is not None and kp is not None:
+                        copy_key = (kb, kp)
+    ctx.need(walk_s is not None and ins_s is not None, '_create_job_group: parent walk / insert not found' + (f' (helpers inlined: {helpers})' if helpers else ''))
+    ws, wst = walk_s
+    wk = [cf.walk_shape(sel) for sel in sr.cancelled_sites(wst) if cf.walk_shape(sel) is not None][0]
+    cons = f'{m.rel}::_create_job_group::parent walk key'
+    if wk['kind'] != 'ancestors':
+        ctx.bad('R2', cons, 'the cancelled-parent probe joins job_groups_cancelled on the group\'s own job_group_id: a parent beneath a cancelled ancestor is accepted', m2.path, ws.lineno)
+    else:
+        bind = _bind(ws, wst)
+        pb = bind.get(getattr(wk['batch'], 'pos', None)) if bind else None
+        pg = bind.get(getattr(wk['group'], 'pos', None)) if bind else None
+        if pb is None or pg is None or copy_key is None:
+            _defer('_create_job_group: the (batch, group) the cancelled-ancestor probe is keyed by, or the (batch, parent) whose ancestor rows the new group inherits, was not resolved')
+        else:
+            same = _pyexpr_key(fn, pb) == _pyexpr_key(fn, copy_key[0]) and _pyexpr_key(fn, pg) == _pyexpr_key(fn, copy_key[1])
+            ctx.check(same and ws.receiver.split('.')[-1] == ins_s.receiver.split('.')[-1], 'R2', cons,
+                      f'the cancelled-ancestor test is keyed by ({pf.nsrc(pb)}, {pf.nsrc(pg)}) on `{ws.receiver}`, but the new group is created beneath ({pf.nsrc(copy_key[0])}, {pf.nsrc(copy_key[1])}) '
+                      f'(the group whose ancestor rows it inherits) on `{ins_s.receiver}`: the test has to ask about that parent, in the same transaction', m2.path, ws.lineno,
+                      detail=f'keyed by the parent ({pf.nsrc(pb)}, {pf.nsrc(pg)})')
+    _refusal(ctx, m2, fn, f'{m.rel}::_create_job_group::refuses cancelled parent', ws, [ins_s], lambda t, var: _row_test(fn, t, var), '_create_job_group',
+             'a sub-group can be inserted without first finding that no self-or-ancestor of the parent is cancelled (HTTP 400 otherwise)')
+
+
+def _create_batch_update_rule(ctx: Ctx, m: pf.Module, fns: Dict[str, Tuple[int, int]]) -> None:
+    m2, fn, helpers = cf.inlined(m, '_create_batch_update.update')
+    sites = cf.query_sites(m2, fn)
+    probe = None
+    fields: Dict[str, bool] = {}
+    inserts = []
+    for s in sites:
+        for v in s.variants or []:
+            for st in v.stmts():
+                if st.kind == 'select':
+                    fc = cf.flag_columns(st, fns)
+                    if fc and probe is None:
+                        probe = (s, st)
+                        fields = {k: pol for k, (kind, pol, _b, _g) in fc.items()}
+                if st.kind == 'insert' and st.table.lower() == 'batch_updates':
+                    inserts.append(s)
+    ctx.need(inserts, '_create_batch_update: INSERT INTO batch_updates not found')
+    cons = f'{m.rel}::_create_batch_update.update::refuses cancelled batch'
+    if probe is None:
+        if any(v.stmts() and any(list(sr.cancelled_sites(st)) for st in v.stmts()) for s in sites for v in (s.variants or [])) or any(s.variants is None for s in sites):
+            _defer('_create_batch_update: the cancelled-batch probe was not recognised')
+        else:
+            ctx.bad('R2', cons, 'a new update can be opened on a cancelled batch: no query of _create_batch_update.update consults job_groups_cancelled', m2.path, inserts[0].lineno)
+        return
+    _refusal(ctx, m2, fn, cons, probe[0], inserts, lambda t, var: _field_test(fn, t, var, fields), '_create_batch_update', 'a new update can be opened on a cancelled batch')
+
+
+def r2(ctx: Ctx, prog: sf.SqlProgram, fns: Dict[str, Tuple[int, int]], roots: Dict[str, int]) -> None:
+    _trigger_refusal(ctx, prog, fns, roots)
+    m = pf.load('batch/batch/front_end/front_end.py')
+    _handler_1644(ctx, m)
+    _create_job_group_rule(ctx, m, fns)
+    _create_batch_update_rule(ctx, m, fns)
+
+
+# ------------------------------------------------------------------------------------------------------------------------------------
+# R3 repeating a cancellation changes nothing
+
+def _mark_subject(r: sf.Routine) -> Optional[Tuple[str, str]]:
+    for st in sf.all_statements(r.ast.body):
+        if st.kind == 'insert' and st.table.lower() == cf.MARKS:
+            try:
+                ins, _, _ = sr.insert_colmap(st)
+            except AnalysisError:
+                return None
+            if 'id' in ins and 'job_group_id' in ins:
+                return text(ins['id']).lower(), text(ins['job_group_id']).lower()
+    return None
+
+
+def _already_atoms(atoms: List[cf.Atom], subj: Tuple[str, str]) -> List[cf.Atom]:
+    """Atoms that are TRUE once the mark `subj` exists."""
+    out = []
+    for a in atoms:
+        s = a.subject()
+        if a.kind in ('walk', 'mark', 'own-group') and s == subj:
+            out.append(a)
+        elif a.kind == 'root' and s[0] == subj[0] and subj[1] == '0':
+            out.append(a)
+    return out
+
+
+def r3(ctx: Ctx, prog: sf.SqlProgram, fns: Dict[str, Tuple[int, int]], roots: Dict[str, int]) -> None:
     for name in ('cancel_job_group', 'cancel_batch'):
         r = prog.routine(name)
+        a = r.ast
+        subj = _mark_subject(r)
+        if subj is None:
+            _defer(f'{name}: the INSERT of the cancellation mark (and so the subject of the procedure) was not found')
+            continue
+        defs = cf.Definitions(a.body, cf.consts_of(a))
         n = 0
-        for st, guard in sf.guarded_statements(r.ast.body):
-            if sf.written_tables(st):
-                n += 1
-                ok = any(pol and any(text(x) == '(NOT cur_cancelled)' for x in sf.conjuncts(c)) for c, pol in guard)
-                ctx.check(ok, 'R3', f'{r.file}::{name}::{st.kind} {sf.written_tables(st)[0][0]}', 'this write happens even when the group is already cancelled: repeating the cancellation is not a no-op',
-                          r.file, r.line_of(st))
+        for st, guard in sf.guarded_statements(a.body):
+            if not sf.written_tables(st):
+                continue
+            n += 1
+            cons = f'sql::{name}::{st.kind} {sf.written_tables(st)[0][0]}'
+            res = [(defs.resolve(c, st), p) for c, p in guard]
+            atoms = [x for (c2, _), _ in res for x in cf.cancel_atoms(c2, fns, roots)]
+            mine = _already_atoms(atoms, subj)
+            sat = all(p in may(_with_flags(c2, mine), _known(1)) for (c2, _), p in res)
+            if mine and not sat:
+                ctx.ok('R3', cons, f'only when NOT {mine[0].kind}{mine[0].subject()}')
+                continue
+            unresolved = any(cond for (_, cond), _ in res) or any(_about_cancellation(_with_flags(c2, mine), prog) for (c2, _), _ in res)
+            if unresolved:
+                _defer(f'{name}: whether `{text(st)[:60]}` runs only when {subj} is not yet cancelled is not decided (guard {_guard_text(guard)})')
+                continue
+            ctx.bad('R3', cons, f'this write happens even when the group is already cancelled (path condition {_guard_text(guard) or "none"} does not exclude "{subj} already carries a mark"): '
+                    'repeating the cancellation is not a no-op', r.file, r.line_of(st))
         ctx.need(n >= 3, f'{name}: fewer than three writes found')
 
 
-def r4(ctx: Ctx, prog: sf.SqlProgram) -> None:
-    r = prog.routine('is_job_cancelled')
+# ------------------------------------------------------------------------------------------------------------------------------------
+# R4 is_job_cancelled and its use
+
+JOB_FN = 'is_job_cancelled'
+
+
+def _job_cancelled_function(ctx: Ctx, prog: sf.SqlProgram) -> None:
+    r = prog.routine(JOB_FN)
     a = r.ast
-    ctx.need(len(a.body) == 1 and a.body[0].kind == 'return', 'is_job_cancelled: body is not a single RETURN')
-    e = a.body[0].value
+    ps = cf.params_of(a)
+    body = [st for st in a.body if st.kind != 'declare']
+    ctx.need(len(body) == 1 and body[0].kind == 'return', 'is_job_cancelled: body is not a single RETURN')
+    e = body[0].value
     ctx.need(e.kind == 'subq', 'is_job_cancelled: RETURN is not a sub-select')
     sel = e.select
     lat = [t for t in sf.from_tables(sel.frm) if t.kind == 'derived']
     ctx.need(len(lat) == 1 and len(sel.cols) == 1, 'is_job_cancelled: shape not recognised')
-    w = sr.ancestor_walk(lat[0].select)
     jal = [(t.alias or t.name).lower() for t in sf.from_tables(sel.frm) if t.kind == 'table' and t.name.lower() == 'jobs']
-    ctx.need(len(jal) == 1, 'is_job_cancelled: jobs table not found')
+    ctx.need(len(jal) == 1 and len(sf.from_tables(sel.frm)) == 2, 'is_job_cancelled: jobs table not found')
     j = jal[0]
-    ok_walk = w is not None and text(w['batch']).lower() == f'{j}.batch_id' and text(w['group']).lower() == f'{j}.job_group_id' and \
-        sr.has_eq(sel.where, f'{j}.batch_id', 'batch_id', strip_qual=False) and sr.has_eq(sel.where, f'{j}.job_id', 'job_id', strip_qual=False)
-    left = any(jn.jtype == 'LEFT' for jn in sel.frm.joins)
-    ctx.check(ok_walk and left, 'R4', f'{r.file}::is_job_cancelled::group lookup', 'the group part of the predicate is not the ancestor walk of the job\'s own group LEFT JOINed to the job row', r.file, r.line)
+    cons = f'sql::{JOB_FN}::group lookup'
+    w = cf.walk_shape(lat[0].select)
+    jn = [x for x in sel.frm.joins if x.ref is lat[0]]
+    ctx.need(len(jn) == 1, 'is_job_cancelled: join of the lateral lookup not found')
+    keyed = {}
+    for c in sf.conjuncts(sel.where):
+        if c.kind == 'bin' and c.op == '=':
+            for x, y in ((c.left, c.right), (c.right, c.left)):
+                if x.kind == 'col' and len(x.parts) > 1 and x.parts[-2].lower() == j and y.kind == 'col' and len(y.parts) == 1 and y.parts[0].lower() in ps:
+                    keyed[x.parts[-1].lower()] = y.parts[0].lower()
+    if w is None:
+        ctx.need(False, 'is_job_cancelled: the lateral group lookup is not the recognised self-and-ancestors walk')
+    elif w['kind'] != 'ancestors':
+        ctx.bad('R4', cons, 'the group part of the predicate joins job_groups_cancelled on the group\'s own job_group_id: a job under a cancelled ANCESTOR group is not cancelled', r.file, r.line)
+    else:
+        subj = (text(w['batch']).lower(), text(w['group']).lower())
+        qual = all(x.kind == 'col' and len(x.parts) > 1 for x in (w['batch'], w['group']))
+        ctx.need(qual, f'is_job_cancelled: the walk is correlated on {subj}; not decided')
+        ctx.need(set(keyed) >= {'batch_id', 'job_id'} and keyed['batch_id'] != keyed['job_id'], 'is_job_cancelled: the job row is not pinned by (batch_id, job_id) = two parameters of the function')
+        if subj != (f'{j}.batch_id', f'{j}.job_group_id'):
+            ctx.bad('R4', cons, f'the group part of the predicate walks the ancestors of {subj}, not of the job\'s own group ({j}.batch_id, {j}.job_group_id)', r.file, r.line)
+        elif jn[0].jtype == 'INNER':
+            ctx.bad('R4', cons, 'the ancestor walk is INNER JOINed to the job row: for a job whose group is not cancelled there is no row, the function returns NULL and `NOT cur_job_cancel` is never true', r.file, r.line)
+        else:
+            ctx.need(jn[0].jtype == 'LEFT', f'is_job_cancelled: join type {jn[0].jtype} of the lateral lookup is not modelled')
+            ctx.ok('R4', cons, f'LEFT JOIN LATERAL walk of ({j}.batch_id, {j}.job_group_id); job pinned by parameters {keyed["batch_id"]}, {keyed["job_id"]}')
+    # what the lateral column is when a cancelled ancestor exists: a non-NULL literal (possibly under MAX/MIN/ANY_VALUE)
     la = lat[0].alias.lower()
+    lcols = {}
+    for c in lat[0].select.cols:
+        ce, al = c if isinstance(c, tuple) else (c, None)
+        inner = ce.args[0] if (ce.kind == 'func' and ce.name in ('MAX', 'MIN', 'ANY_VALUE') and len(ce.args) == 1) else ce
+        nm = (al or (ce.parts[-1] if ce.kind == 'col' else '')).lower()
+        if nm:
+            lcols[nm] = inner
     expr = sel.cols[0][0]
     wrong = None
     for ar, canc, gc in itertools.product((0, 1), repeat=3):
         def env(c: N):
-            t = text(c).lower()
-            if t == f'{la}.cancelled':
-                return 1 if gc else None
-            return {'always_run': ar, 'cancelled': canc}[t.split('.')[-1]]
-        got = ev(expr, env)
+            parts = [p.lower() for p in c.parts] if c.kind == 'col' else []
+            if len(parts) == 2 and parts[0] == la:
+                v = lcols.get(parts[1])
+                if v is None or v.kind != 'lit' or v.value is None:
+                    raise AnalysisError(f'is_job_cancelled: column {text(c)} of the lateral lookup is not a non-NULL literal')
+                return (1 if v.value is True else 0 if v.value is False else v.value) if gc else None
+            if parts and (len(parts) == 1 or parts[0] == j) and parts[-1] in ('always_run', 'cancelled') and parts[-1] not in ps:
+                return {'always_run': ar, 'cancelled': canc}[parts[-1]]
+            raise AnalysisError(f'is_job_cancelled: the predicate reads `{text(c)}`, which is not modelled')
+        try:
+            got = ev(expr, env)
+        except Unbound as ex:
+            raise AnalysisError(f'is_job_cancelled: predicate not evaluable: {ex}')
         want = int((not ar) and (canc or gc))
         if got != want:
             wrong = (ar, canc, gc, got, want)
             break
-    ctx.check(wrong is None, 'R4', f'{r.file}::is_job_cancelled::predicate', f'for always_run={wrong[0]}, cancelled={wrong[1]}, group_cancelled={wrong[2]} the function returns {wrong[3]}, '
+    ctx.check(wrong is None, 'R4', f'sql::{JOB_FN}::predicate', f'for always_run={wrong[0]}, cancelled={wrong[1]}, group_cancelled={wrong[2]} the function returns {wrong[3]}, '
               f'the statement requires {wrong[4]}' if wrong else '', r.file, r.line, detail={'rows': 8})
-    # dominance in the three procedures
+
+
+def _answers(ctx: Ctx, rr: sf.Routine, cons: str) -> None:
+    paths = cf.enumerate_paths(rr.ast.body)
+    silent = [p for p in paths if p.end != 'error' and not any(st.kind == 'select' and not st.into for st in p.stmts)]
+    feas = [p for p in silent if p.feasible()]
+    if silent and not feas:
+        _defer(f'{rr.name}: the only paths without a result row decide one condition both ways; not decided')
+        return
+    ctx.check(not feas, 'R4', cons + '::answers', 'some branch ends without returning a result row (the driver would get no answer for a job under a cancelled group)' +
+              (f': path {[("" if pol else "NOT ") + c for c, pol in feas[0].decisions]}' if feas else ''), rr.file, rr.line)
+
+
+def r4(ctx: Ctx, prog: sf.SqlProgram, fns: Dict[str, Tuple[int, int]], roots: Dict[str, int]) -> None:
+    _job_cancelled_function(ctx, prog)
     for name, target in (('schedule_job', 'Running'), ('mark_job_started', 'Running'), ('mark_job_creating', 'Creating')):
         rr = prog.routine(name)
         aa = rr.ast
-        cvar = None
-        for st in sf.all_statements(aa.body):
-            if st.kind == 'select' and st.into and st.cols[0][0].kind == 'func' and st.cols[0][0].name == 'IS_JOB_CANCELLED':
-                if [text(x).lower() for x in st.cols[0][0].args] == ['in_batch_id', 'in_job_id']:
-                    cvar = st.into[0].parts[0].lower()
-        cons = f'{rr.file}::{name}'
-        ctx.check(cvar is not None, 'R4', cons + '::cancel flag', 'the procedure does not evaluate is_job_cancelled(in_batch_id, in_job_id)', rr.file, rr.line)
-        if cvar is not None:
-            # reaching definitions of the flag: on every path it must hold the value of is_job_cancelled for this job
-            defs = []  # (statement, guard, is the canonical definition?)
-            for st, guard in sf.guarded_statements(aa.body):
-                if st.kind == 'select' and st.into:
-                    names = [t.parts[0].lower() for t in st.into]
-                    if cvar in names:
-                        i = names.index(cvar)
-                        col = st.cols[i][0] if i < len(st.cols) else None
-                        canon = col is not None and col.kind == 'func' and col.name == 'IS_JOB_CANCELLED' and [text(x).lower() for x in col.args] == ['in_batch_id', 'in_job_id']
-                        defs.append((st, guard, canon))
-                elif st.kind == 'set' and any(text(c).lower() == cvar for c, _ in getattr(st, 'sets', []) or []):
-                    defs.append((st, guard, False))
-            canon_defs = [d for d in defs if d[2]]
-            last = defs[-1] if defs else None
-            ok_def = bool(canon_defs) and last is not None and last[2] and last[1] == ()
-            why = ''
-            if not ok_def and canon_defs:
-                cd = canon_defs[-1]
-                if cd[1] != ():
-                    why = (f'is_job_cancelled is evaluated only under {[("" if p else "NOT ") + text(c) for c, p in cd[1]]}; on the other paths `{cvar}` keeps '
-                           f'`{text(defs[0][0])[:80]}`, which does not look at the job group and its ancestors')
-                else:
-                    why = f'`{cvar}` is re-assigned after is_job_cancelled was evaluated (`{text(last[0])[:80]}`)'
-            ctx.check(ok_def, 'R4', cons + '::cancel flag is is_job_cancelled on every path', why or 'no definition of the flag from is_job_cancelled',
-                      rr.file, rr.line_of(canon_defs[-1][0]) if canon_defs else rr.line)
+        consts = cf.consts_of(aa)
+        defs = cf.Definitions(aa.body, consts)
+        cons = f'sql::{name}'
         found = False
         for st, guard in sf.guarded_statements(aa.body):
-            if st.kind == 'update' and sf.table_names(st.frm)[:1] == ['jobs']:
-                sv = [v for c, v in st.sets if c.kind == 'col' and c.parts[-1].lower() == 'state']
-                if sv and text(sv[0]) == f"'{target}'":
-                    found = True
-                    # the guard must be unsatisfiable when the cancel flag is true
-                    sat = all(pol in may(c, lambda n: 1 if (cvar and n.kind == 'col' and n.parts[-1].lower() == cvar) else UNKNOWN) for c, pol in guard)
-                    ctx.check(not sat and cvar is not None, 'R4', cons + f'::state := {target}', f'a cancelled, non-always-run job can still be moved to {target} '
-                              f'(path condition {[("" if p else "NOT ") + text(c) for c, p in guard]} does not exclude {cvar} = TRUE)', rr.file, rr.line_of(st))
+            if not (st.kind == 'update' and [t.lower() for t in sf.table_names(st.frm)[:1]] == ['jobs']):
+                continue
+            sv = [v for c, v in st.sets if c.kind == 'col' and c.parts[-1].lower() == 'state']
+            if not sv or not (sv[0].kind == 'lit' and str(sv[0].value).lower() == target.lower()):
+                continue
+            found = True
+            key = {}
+            for c in sf.conjuncts(st.where):
+                if c.kind == 'bin' and c.op == '=':
+                    for x, y in ((c.left, c.right), (c.right, c.left)):
+                        if x.kind == 'col' and x.parts[-1].lower() in ('batch_id', 'job_id') and not (len(x.parts) == 1 and x.parts[0].lower() in consts):
+                            key[x.parts[-1].lower()] = text(y).lower()
+            c2 = cons + f'::state := {target}'
+            if set(key) != {'batch_id', 'job_id'}:
+                _defer(f'{name}: the job row moved to {target} is not pinned by batch_id / job_id equalities')
+                continue
+            own = (key['batch_id'], key['job_id'])
+            res = [(defs.resolve(c, st), p) for c, p in guard]
+            jatoms: List[N] = []
+            for (cx, _), _ in res:
+                jatoms += [n for n in cx.walk() if n.kind == 'func' and n.name.lower() == JOB_FN]
+            mine = [n for n in jatoms if tuple(text(x).lower() for x in n.args) == own]
+            repl = {id(n): _flag() for n in mine}
+            sat = all(p in may(cf.replace_nodes(cx, repl), _known(1)) for (cx, _), p in res)
+            if mine and not sat:
+                ctx.ok('R4', c2, f'requires NOT {JOB_FN}{own}')
+                continue
+            conditional = [(k, d) for (_, cond), _ in res for k, d in cond]
+            cond_job = [(k, d) for k, d in conditional if d.value is not None and any(n.kind == 'func' and n.name.lower() == JOB_FN for n in d.value.walk())]
+            if cond_job:
+                k, d = cond_job[0]
+                others = [x for x in defs.defs.get(k, []) if x is not d]
+                if d.guard or others:
+                    ctx.bad('R4', c2, f'`{k}` holds {JOB_FN}(..) only when {_guard_text(d.guard) or "that assignment is the last one executed"}; on the other paths it keeps '
+                            f'`{text(others[0].stmt)[:80] if others else "its initial value"}`, which does not look at the job group and its ancestors: a cancelled, non-always-run job can still be moved to {target}',
+                            rr.file, rr.line_of(d.stmt))
+                    continue
+            others_j = [n for n in jatoms if n not in mine]
+            gatoms = [x for (cx, _), _ in res for x in cf.cancel_atoms(cx, fns, roots)]
+            if others_j or gatoms:
+                seen = [f'{JOB_FN}({", ".join(text(x) for x in n.args)})' for n in others_j] + [f'{x.kind}{x.subject()}' for x in gatoms]
+                ctx.bad('R4', c2, f'the move to {target} of job {own} is guarded by {seen}, not by {JOB_FN}{own}: a cancelled, non-always-run job (own flag, or a cancelled ancestor group) can still be moved to {target}',
+                        rr.file, rr.line_of(st))
+                continue
+            if mine:
+                # the flag is there but does not exclude the write
+                ctx.bad('R4', c2, f'a cancelled, non-always-run job can still be moved to {target} (path condition {_guard_text(guard)} does not exclude {JOB_FN}{own} = TRUE)', rr.file, rr.line_of(st))
+                continue
+            if conditional or any(_about_cancellation(cx, prog) for (cx, _), _ in res):
+                _defer(f'{name}: whether the move to {target} requires NOT {JOB_FN}{own} is not decided (guard {_guard_text(guard)})')
+                continue
+            ctx.bad('R4', c2, f'a cancelled, non-always-run job can still be moved to {target}: the path condition {_guard_text(guard) or "(none)"} does not depend on {JOB_FN}{own} at all', rr.file, rr.line_of(st))
         ctx.need(found, f'{name}: UPDATE jobs SET state = {target} not found')
-        # answered normally: every leaf path of the top-level decision ends with a result SELECT
-        leaves_ok = _always_answers(aa.body)
-        ctx.check(leaves_ok, 'R4', cons + '::answers', 'some branch ends without returning a result row (the driver would get no answer for a job under a cancelled group)', rr.file, rr.line)
+        _answers(ctx, rr, cons)
 
 
-def _always_answers(body: List[N]) -> bool:
-    if not body:
-        return False
-    last = body[-1]
-    if last.kind == 'select' and not last.into:
-        return True
-    if last.kind == 'if':
-        return all(_always_answers(b) for _, b in last.branches) and last.orelse is not None and _always_answers(last.orelse)
-    return False
+# ------------------------------------------------------------------------------------------------------------------------------------
+# R5 driver selections
+
+def _conj_facts(st: N) -> Dict[str, Any]:
+    out: Dict[str, Any] = {'params': {}}
+    for c in sf.conjuncts(st.where):
+        if c.kind == 'bin' and c.op == '=':
+            for x, y in ((c.left, c.right), (c.right, c.left)):
+                if x.kind == 'col':
+                    nm = x.parts[-1].lower()
+                    if y.kind == 'lit' and nm in ('state', 'always_run', 'cancelled'):
+                        out[nm] = y.value.lower() if isinstance(y.value, str) else int(y.value) if isinstance(y.value, (int, bool)) else y.value
+                    if y.kind == 'param' and nm in ('batch_id', 'job_group_id'):
+                        out['params'][nm] = y.pos
+        elif c.kind == 'col' and c.parts[-1].lower() in ('always_run', 'cancelled'):
+            out[c.parts[-1].lower()] = 1
+        elif c.kind == 'un' and c.op == 'NOT' and c.arg.kind == 'col' and c.arg.parts[-1].lower() in ('always_run', 'cancelled'):
+            out[c.arg.parts[-1].lower()] = 0
+    return out
 
 
-def r5(ctx: Ctx) -> None:
+def r5(ctx: Ctx, fns: Dict[str, Tuple[int, int]]) -> None:
     for rel, funcs, role in (('batch/batch/driver/instance_collection/pool.py', ['PoolScheduler.schedule_loop_body.user_runnable_jobs'], 'scheduler'),
                              ('batch/batch/driver/instance_collection/job_private.py', ['JobPrivateInstanceManager.create_instances_loop_body.user_runnable_jobs'], 'scheduler'),
                              ('batch/batch/driver/canceller.py', ['Canceller.cancel_cancelled_ready_jobs_loop_body.user_cancelled_ready_jobs',
@@ -331,73 +858,165 @@ def r5(ctx: Ctx) -> None:
                                                                  'Canceller.cancel_cancelled_running_jobs_loop_body.user_cancelled_running_jobs'], 'canceller')):
         m = pf.load(rel)
         for q in funcs:
-            fn = m.func(q)
-            embs = [e for e in sf.embedded_in(m) if e.fn is fn]
-            gq = [e for e in embs if e.stmts() and e.stmts()[0].kind == 'select' and sf.table_names(e.stmts()[0].frm)[:1] == ['job_groups']]
-            jq = [e for e in embs if e.stmts() and e.stmts()[0].kind == 'select' and sf.table_names(e.stmts()[0].frm)[:1] == ['jobs']]
-            ctx.need(len(gq) == 1 and jq, f'{rel}::{q}: job-group / job queries not recognised')
-            gsel = gq[0].stmts()[0]
-            lat = [(j, j.ref) for j in gsel.frm.joins if j.ref.kind == 'derived']
-            ctx.need(len(lat) == 1, f'{rel}::{q}: lateral cancelled lookup not found')
-            jn, ref = lat[0]
-            w = sr.ancestor_walk(ref.select)
-            walk_ok = w is not None and text(w['batch']).lower() == 'job_groups.batch_id' and text(w['group']).lower() == 'job_groups.job_group_id'
-            flag_col = None
-            for c, al in gsel.cols:
-                if al and text(c).lower() == f'({ref.alias.lower()}.cancelled is not null)':
-                    flag_col = al
-            only_cancelled_groups = jn.jtype == 'INNER'
-            for e in jq:
-                st = e.stmts()[0]
-                conj = [text(c).lower().replace('jobs.', '') for c in sf.conjuncts(st.where)]
-                cons = f'{rel}::{q}::{[c for c in conj if "state" in c][:1]} always_run={"1" if "(always_run = 1)" in conj else "0" if "(always_run = 0)" in conj else "?"}' \
-                       f'{" cancelled=" + ("0" if "(cancelled = 0)" in conj else "1") if any(c.startswith("(cancelled") for c in conj) else ""}'
-                # keyed by the job group of the enclosing loop
-                elts = sr.args_tuple(e.fn, e.call.args[1] if len(e.call.args) > 1 else None)
-                params = sr.params_in_order(st)
-                bind = {p.pos: pf.nsrc(x) for p, x in zip(params, elts or [])}
-                kb = kg = None
-                for c in sf.conjuncts(st.where):
-                    if c.kind == 'bin' and c.op == '=' and c.right.kind == 'param':
-                        n_ = text(c.left).lower().split('.')[-1]
-                        if n_ == 'batch_id':
-                            kb = bind.get(c.right.pos)
-                        if n_ == 'job_group_id':
-                            kg = bind.get(c.right.pos)
-                loops = sr.enclosing_loops(m, e.call)
-                loop_var = pf.nsrc(loops[-1].target) if loops and any(gq[0].call is x for x in ast.walk(loops[-1].iter)) else None
-                if loop_var is None and loops:
-                    for lp in loops:
-                        if any(gq[0].call is x for x in ast.walk(lp.iter)):
-                            loop_var = pf.nsrc(lp.target)
-                keyed = loop_var is not None and kb == f"{loop_var}['batch_id']" and kg == f"{loop_var}['job_group_id']"
-                ifs = sr.enclosing_ifs(m, e.call, stop=fn)
-                flag_tests = [(pf.nsrc(i.test), inb) for i, inb in ifs]
-                under_not_cancelled = flag_col is not None and ((f"not {loop_var}['{flag_col}']", True) in flag_tests or (f"{loop_var}['{flag_col}']", False) in flag_tests)
-                under_cancelled = flag_col is not None and ((f"{loop_var}['{flag_col}']", True) in flag_tests or (f"not {loop_var}['{flag_col}']", False) in flag_tests)
-                if role == 'scheduler':
-                    ready = "(state = 'ready')" in conj
-                    if '(always_run = 1)' in conj:
-                        okx = ready and not any(c.startswith('(cancelled') for c in conj) and not under_not_cancelled and not under_cancelled and keyed
-                        ctx.check(okx, 'R5', cons, 'always-run jobs must be selected for every running group regardless of cancellation (no cancelled filter, not under a group-cancelled test), keyed by the loop\'s group',
-                                  m.path, e.lineno)
-                    else:
-                        okx = ready and '(always_run = 0)' in conj and '(cancelled = 0)' in conj and under_not_cancelled and walk_ok and keyed
-                        ctx.check(okx, 'R5', cons, 'non-always-run jobs are offered to the scheduler without all of: always_run = 0, cancelled = 0, executed only when the group\'s ancestor walk found no cancellation, keyed by that group'
-                                  f' (conjuncts {conj}, guards {flag_tests}, walk_ok={walk_ok})', m.path, e.lineno)
+            try:
+                _r5_function(ctx, m, rel, q, role, fns)
+            except AnalysisError as ex:
+                _defer(str(ex))
+
+
+def _r5_function(ctx: Ctx, m: pf.Module, rel: str, q: str, role: str, fns: Dict[str, Tuple[int, int]]) -> None:
+    fn = m.func(q)
+    sites = cf.query_sites(m, fn)
+    ctx.need(all(s.variants is not None for s in sites), f'{rel}::{q}: a query text is not resolvable')
+
+    def first_table(st: N) -> str:
+        t = sf.table_names(st.frm)[:1] if st.kind == 'select' and st.frm is not None else []
+        return t[0].lower() if t else ''
+    gq = [s for s in sites if any(first_table(st) == 'job_groups' for v in s.variants for st in v.stmts())]
+    jq = [s for s in sites if any(first_table(st) == 'jobs' for v in s.variants for st in v.stmts())]
+    ctx.need(len(gq) == 1 and len(gq[0].variants) == 1 and jq, f'{rel}::{q}: job-group / job queries not recognised')
+    gsel = gq[0].variants[0].stmts()[0]
+    ga = [(t.alias or t.name).lower() for t in sf.from_tables(gsel.frm) if t.kind == 'table' and t.name.lower() == 'job_groups']
+    lat = [(j, j.ref) for j in gsel.frm.joins if j.ref.kind == 'derived']
+    ctx.need(len(lat) == 1 and len(ga) == 1, f'{rel}::{q}: lateral cancelled lookup not found')
+    jn, ref = lat[0]
+    w = cf.walk_shape(ref.select)
+    ctx.need(w is not None, f'{rel}::{q}: the lateral lookup of the job-group query is not the recognised self-and-ancestors walk')
+    walk_ok = w['kind'] == 'ancestors' and text(w['batch']).lower() == f'{ga[0]}.batch_id' and text(w['group']).lower() == f'{ga[0]}.job_group_id'
+    walk_why = 'the lateral lookup joins the marks on the group\'s own job_group_id (ancestors ignored)' if w['kind'] != 'ancestors' else \
+        f'the lateral walk is correlated on ({text(w["batch"])}, {text(w["group"])}), not on the selected group\'s own ({ga[0]}.batch_id, {ga[0]}.job_group_id)'
+    if w['kind'] == 'ancestors' and not walk_ok:
+        ctx.need(all(x.kind == 'col' and len(x.parts) > 1 for x in (w['batch'], w['group'])), f'{rel}::{q}: correlation of the lateral walk not decided')
+    flags = {k: pol for k, (kind, pol, _b, _g) in cf.flag_columns(gsel, fns).items()}
+    ctx.need(jn.jtype in ('INNER', 'LEFT'), f'{rel}::{q}: join type {jn.jtype} of the lateral lookup is not modelled')
+    only_cancelled_groups = jn.jtype == 'INNER'
+    # output column -> role
+    roles: Dict[str, str] = {}
+    for c in gsel.cols:
+        ce, al = c if isinstance(c, tuple) else (c, None)
+        if isinstance(ce, N) and ce.kind == 'col' and (len(ce.parts) == 1 or ce.parts[-2].lower() == ga[0]) and ce.parts[-1].lower() in ('batch_id', 'job_group_id'):
+            roles[(al or ce.parts[-1]).lower()] = ce.parts[-1].lower()
+    # loop over the group query
+    loop_var = None
+    for lp in sr.enclosing_loops(m, jq[0].call):
+        it = pf.expand_locals(fn, lp.iter)
+        if any(gq[0].call is x for x in ast.walk(lp.iter)) or ast.dump(it) == ast.dump(gq[0].call) or any(ast.dump(x) == ast.dump(gq[0].call) for x in ast.walk(it)):
+            if isinstance(lp.target, ast.Name):
+                loop_var = lp.target.id
+    ctx.need(loop_var is not None, f'{rel}::{q}: the loop over the job groups was not found')
+    multi = {n for n, vals in pf.assignments(fn).items() if len(vals) > 1}
+    for s in jq:
+        ctx.need(any(isinstance(lp.target, ast.Name) and lp.target.id == loop_var for lp in sr.enclosing_loops(m, s.call)), f'{rel}::{q}: a job query outside the loop over the job groups')
+        site_guard = cf.guards_of(m, fn, s.call)
+        for v in s.variants:
+            st = v.stmts()[0] if v.stmts() else None
+            ctx.need(st is not None and st.kind == 'select' and first_table(st) == 'jobs', f'{rel}::{q}: query at line {s.lineno} not recognised')
+            f = _conj_facts(st)
+            cons = f'{rel}::{q}::jobs state={f.get("state", "?")} always_run={f.get("always_run", "?")}' + (f' cancelled={f["cancelled"]}' if 'cancelled' in f else '')
+            # decisions on the group's flag
+            under_c = under_nc = False
+            unknown: List[str] = []
+            for t, pol in cf.flatten_guard(tuple(site_guard) + tuple(v.guard)):
+                nt, npol = cf.norm_test(fn, t, pol)
+                rf = cf.record_field(nt)
+                if rf is not None and rf[0] == loop_var and rf[1].lower() in flags:
+                    cancelled = npol if flags[rf[1].lower()] else not npol
+                    under_c = under_c or cancelled
+                    under_nc = under_nc or not cancelled
+                elif loop_var in pf.names_in(nt) or (pf.names_in(nt) & multi):
+                    unknown.append(pf.nsrc(t))
+            # keyed by the loop's group
+            bind = _bind(s, st)
+            keyed: Optional[bool] = None
+            kb = kg = None
+            if bind is not None and set(f['params']) == {'batch_id', 'job_group_id'}:
+                kb = cf.record_field(cf.norm_test(fn, bind[f['params']['batch_id']], True)[0])
+                kg = cf.record_field(cf.norm_test(fn, bind[f['params']['job_group_id']], True)[0])
+                if kb is not None and kg is not None and kb[0] == loop_var and kg[0] == loop_var and kb[1].lower() in roles and kg[1].lower() in roles:
+                    keyed = roles[kb[1].lower()] == 'batch_id' and roles[kg[1].lower()] == 'job_group_id'
+            if keyed is None:
+                _defer(f'{rel}::{q}: whether the job query at line {s.lineno} is keyed by the loop\'s group is not decided')
+                continue
+            why: List[str] = []
+            undecided: List[str] = []
+            if not keyed:
+                why.append(f'the query is keyed by ({kb}, {kg}) of the loop record, not by the group\'s (batch_id, job_group_id)')
+            if role == 'scheduler':
+                if f.get('state') != 'ready':
+                    (why if 'state' in f else undecided).append(f'state filter is {f.get("state")!r}, the scheduler may only pick Ready jobs')
+                if f.get('always_run') == 1:
+                    if 'cancelled' in f:
+                        why.append('always-run jobs are filtered on cancelled')
+                    if under_nc or under_c:
+                        why.append('always-run jobs are selected only for ' + ('not cancelled' if under_nc else 'cancelled') + ' groups')
+                    if unknown:
+                        undecided.append(f'guards {unknown}')
+                    msg = 'always-run jobs must be selected for every running group regardless of cancellation (no cancelled filter, not under a group-cancelled test), keyed by the loop\'s group'
+                elif f.get('always_run') == 0:
+                    if f.get('cancelled') != 0:
+                        why.append('no `cancelled = 0` filter: individually cancelled jobs are offered to the scheduler' if 'cancelled' not in f else f'cancelled = {f["cancelled"]}')
+                    if not walk_ok:
+                        why.append(walk_why)
+                    if under_c:
+                        why.append('the query runs for CANCELLED groups')
+                    elif not under_nc:
+                        if unknown or not flags:
+                            undecided.append(f'not under a recognised "group not cancelled" test (guards {unknown}, flag columns {sorted(flags)})')
+                        else:
+                            why.append(f'the query does not run under "not {loop_var}[{sorted(flags)[0]!r}]" (guards on the call path: {[pf.nsrc(t) for t, _ in site_guard + v.guard] or "none"}): '
+                                       'Ready jobs of a group whose ancestor walk found a cancellation are offered to the scheduler')
+                    msg = 'non-always-run jobs are offered to the scheduler without all of: always_run = 0, cancelled = 0, executed only when the group\'s ancestor walk found no cancellation, keyed by that group'
                 else:
-                    base = '(always_run = 0)' in conj and keyed and walk_ok
-                    if '(cancelled = 1)' in conj:
-                        okx = base and (under_not_cancelled or not flag_col)
-                        why = 'jobs individually marked cancelled'
-                    else:
-                        okx = base and (only_cancelled_groups or under_cancelled)
-                        why = 'jobs of cancelled groups'
-                    ctx.check(okx, 'R5', cons, f'the canceller selects jobs ({why}) without all of: always_run = 0, keyed by the loop\'s group, and restricted to groups whose own ancestor walk found a cancellation '
-                              f'(or cancelled = 1): jobs of sibling/ancestor groups or always-run jobs would be cancelled (conjuncts {conj}, guards {flag_tests}, inner-join={only_cancelled_groups})', m.path, e.lineno)
+                    undecided.append('no always_run filter')
+                    msg = ''
+            else:
+                if f.get('always_run') != 0:
+                    why.append('no `always_run = 0` filter: always-run jobs would be cancelled' if 'always_run' not in f else 'always_run = 1: always-run jobs would be cancelled')
+                if not walk_ok:
+                    why.append(walk_why)
+                if f.get('cancelled') == 1:
+                    kind = 'jobs individually marked cancelled'
+                else:
+                    kind = 'jobs of cancelled groups'
+                    if not only_cancelled_groups:
+                        if under_nc:
+                            why.append('the query runs for groups that are NOT cancelled')
+                        elif not under_c:
+                            if unknown or (not flags):
+                                if flags or unknown:
+                                    undecided.append(f'not under a recognised "group cancelled" test (guards {unknown})')
+                                else:
+                                    why.append('the job-group query LEFT JOINs the ancestor walk and the result is not consulted: jobs of groups that are not cancelled are selected')
+                            else:
+                                why.append(f'the job-group query LEFT JOINs the ancestor walk (all running groups) and this query does not run under "{loop_var}[{sorted(flags)[0]!r}]": '
+                                           'jobs of sibling / ancestor groups that are not cancelled are selected for cancellation')
+                msg = f'the canceller selects jobs ({kind}) without all of: always_run = 0, keyed by the loop\'s group, and restricted to groups whose own ancestor walk found a cancellation (or cancelled = 1)'
+            if why:
+                ctx.bad('R5', cons, msg + ': ' + '; '.join(why), m.path, s.lineno)
+            elif undecided:
+                _defer(f'{rel}::{q}: query at line {s.lineno}: ' + '; '.join(undecided))
+            else:
+                ctx.ok('R5', cons, {'keyed': keyed, 'under_not_cancelled': under_nc, 'under_cancelled': under_c, 'inner_join_walk': only_cancelled_groups})
 
 
-def r6(ctx: Ctx, prog: sf.SqlProgram) -> None:
+def _embedded_statements(m: pf.Module, e: 'sf.Embedded') -> List[List[N]]:
+    """The statement lists an execute-style call can issue: its literal SQL, or - when the text sits in a module-level / closure constant
+    or is chosen by a conditional expression - every alternative (c07facts.sql_variants)."""
+    if e.sql_text is not None:
+        return [e.stmts()]
+    if not e.call.args:
+        return []
+    vs = cf.sql_variants(m, e.fn, e.call.args[0])
+    out = []
+    for t, _ in vs or []:
+        try:
+            out.append(cf.parse_statements(t))
+        except cf.SqlParseError:
+            pass
+    return out
+
+
+def r6(ctx: Ctx, prog: sf.SqlProgram, fns: Dict[str, Tuple[int, int]], roots: Dict[str, int]) -> None:
     """A cancel request that was accepted is always RECORDED: the mark in job_groups_cancelled is what refuses later jobs / sub-groups
     (R2) and what the driver filters on (R4, R5).  (a) SQL: in the cancel procedures the INSERT of the mark depends on nothing but
     "not already cancelled" -- in particular not on the group's state (a complete / still empty group can be cancelled and must then
@@ -411,8 +1030,8 @@ def r6(ctx: Ctx, prog: sf.SqlProgram) -> None:
         if 'CALL ' not in m0.src:
             continue
         for e in sf.embedded_in(m0):
-            if e.sql_text is not None:
-                called |= {st.name for st in e.stmts() if st.kind == 'call'}
+            for sts in _embedded_statements(m0, e):
+                called |= {st.name for st in sts if st.kind == 'call'}
     for rr in prog.routines.values():
         called |= {st.name for st in sf.all_statements(rr.ast.body) if st.kind == 'call'}
     for name in ('cancel_job_group', 'cancel_batch'):
@@ -422,21 +1041,30 @@ def r6(ctx: Ctx, prog: sf.SqlProgram) -> None:
             ctx.info(f'{name}: defined but never CALLed from batch/batch or another routine (legacy); not judged')
             continue
         r = prog.routine(name)
-        marks = [(st, g) for st, g in sf.guarded_statements(r.ast.body) if st.kind == 'insert' and any(t.lower() == 'job_groups_cancelled' for t, _ in sf.written_tables(st))]
+        a = r.ast
+        defs = cf.Definitions(a.body, cf.consts_of(a))
+        subj = _mark_subject(r)
+        marks = [(st, g) for st, g in sf.guarded_statements(a.body) if st.kind == 'insert' and any(t.lower() == 'job_groups_cancelled' for t, _ in sf.written_tables(st))]
         if name == 'cancel_job_group':
-            ctx.need(len(marks) >= 1, f'{name}: INSERT INTO job_groups_cancelled not found')
+            ctx.need(len(marks) >= 1 and subj is not None, f'{name}: INSERT INTO job_groups_cancelled not found')
         for st, guard in marks:
-            def known(n: N):
-                return 0 if text(n).lower() == 'cur_cancelled' else UNKNOWN
-            vals = set()
-            ok = True
-            for c, pol in guard:
-                m = may(c, known)
-                want = True if pol else False
-                if m != {want}:
-                    ok = False
-                    vals.add(text(c))
-            ctx.check(ok, 'R6', f'sql::{name}::cancellation mark recorded', f'the INSERT INTO job_groups_cancelled also depends on {sorted(vals)}: for some state of the group the cancellation is '
+            # "not already cancelled" is the only thing the mark may depend on: with every already-cancelled test of the procedure's own
+            # subject FALSE, each condition on the path must be decided in favour of the INSERT
+            res = [(defs.resolve(c, st), p) for c, p in guard]
+            atoms = [x for (c2, _), _ in res for x in cf.cancel_atoms(c2, fns, roots)]
+            mine = _already_atoms(atoms, subj) if subj is not None else []
+            vals = []
+            undecided = False
+            for (c2, cond), pol in res:
+                c3 = _with_flags(c2, mine)
+                if may(c3, _known(0)) != {pol}:
+                    vals.append(text(c3).replace(FLAG, 'already_cancelled'))
+                    if cond or _about_cancellation(c3, prog):
+                        undecided = True
+            if vals and undecided:
+                _defer(f'{name}: whether the INSERT of the cancellation mark depends on more than "not already cancelled" is not decided ({vals})')
+                continue
+            ctx.check(not vals, 'R6', f'sql::{name}::cancellation mark recorded', f'the INSERT INTO job_groups_cancelled also depends on {sorted(vals)}: for some state of the group the cancellation is '
                       'accepted but not recorded, so jobs and sub-groups can still be added beneath the cancelled group and its Ready jobs are still scheduled', r.file, r.line_of(st))
     # Python side
     mods = {}
@@ -447,9 +1075,9 @@ def r6(ctx: Ctx, prog: sf.SqlProgram) -> None:
             continue
         mods[rel] = m
         for e in sf.embedded_in(m):
-            if e.sql_text is None or e.fn is None:
+            if e.fn is None:
                 continue
-            if any(st.kind == 'call' and st.name in ('cancel_job_group', 'cancel_batch') for st in e.stmts()):
+            if any(st.kind == 'call' and st.name in ('cancel_job_group', 'cancel_batch') for sts in _embedded_statements(m, e) for st in sts):
                 direct.append((m, e.fn, e.call))
     ctx.need(len(direct) >= 2, f'only {len(direct)} Python sites issue CALL cancel_job_group / cancel_batch')
     performing = {}  # function name -> (module, fn)
@@ -543,6 +1171,22 @@ def _marks_can_stack(prog: sf.SqlProgram) -> Tuple[Optional[bool], str]:
                   'so after "cancel sub-group g; cancel its parent (or the batch)" the chain of g carries two marks')
 
 
+def _from_signature(sel: N) -> str:
+    """The tables a SELECT ranges over, in FROM order, derived tables in brackets - no aliases, no column or variable names: the key of an
+    R7 instance must not change when a later migration re-creates the routine with other aliases."""
+    if sel.frm is None:
+        return '(no FROM)'
+    parts = []
+    for t in sf.from_tables(sel.frm):
+        if t.kind == 'table':
+            parts.append(t.name.lower())
+        elif t.kind == 'derived':
+            parts.append('(' + _from_signature(t.select) + ')')
+        else:
+            parts.append('?')
+    return ' x '.join(parts)
+
+
 def r7(ctx: Ctx, prog: sf.SqlProgram) -> None:
     keys = sc.table_keys()
     routines: List[sf.Routine] = []
@@ -558,9 +1202,12 @@ def r7(ctx: Ctx, prog: sf.SqlProgram) -> None:
     stack: Optional[Tuple[Optional[bool], str]] = None
     for r in routines:
         scope = sc.Scope(sc.routine_consts(r), prog.tables)
+        nsig: Dict[Tuple[str, str], int] = {}
         for u in sc.scalar_uses(r):
             over_marks = any(n.kind == 'table' and n.name.lower() == CANCEL_TABLE for n in sc.walk(u.sel))
-            cons = f'sql::{r.name}::{u.how}::{text(u.sel)[:70]}'
+            sig = _from_signature(u.sel)
+            nsig[(u.how, sig)] = nsig.get((u.how, sig), 0) + 1
+            cons = f'sql::{r.name}::{u.how}::rows of {sig}' + (f' #{nsig[(u.how, sig)]}' if nsig[(u.how, sig)] > 1 else '')
             v = sc.at_most_one(u.sel, scope, keys)
             if not over_marks:
                 ctx.ok('R7', cons, {'cardinality': v[0], 'ranges over cancellation marks': False})
@@ -585,16 +1232,26 @@ def run(ctx: Ctx) -> None:
     ctx.rule('R1', 'every lookup of job_groups_cancelled is the canonical ancestor walk on one subject, a root lookup at a batch-level site, or a listed reporting-only site', 24)
     ctx.rule('R2', 'admission guards: trigger refuses jobs under cancelled groups (-> HTTP 400); sub-group under cancelled parent refused; update on cancelled batch refused', 5)
     ctx.rule('R3', 'all writes of cancel_job_group / cancel_batch happen only when not already cancelled', 6)
-    ctx.rule('R4', 'is_job_cancelled truth table; state := Running|Creating requires NOT cancelled for the same job; procedures always answer', 14)
+    ctx.rule('R4', 'is_job_cancelled truth table; state := Running|Creating requires NOT cancelled for the same job; procedures always answer', 8)
     ctx.rule('R6', 'an accepted cancel request is always recorded: the mark depends only on not-already-cancelled; every cancel entry point reaches the CALL on every normal exit', 5)
     ctx.rule('R5', 'driver selections: scheduler and canceller filters on always_run / cancelled / group walk', 8)
     ctx.rule('R7', 'single-value queries of the scheduling / creating / starting procedures yield at most one row under any combination of cancelled groups', 10)
     ctx.assume('job_group_self_and_ancestors contains exactly (group, ancestor) pairs including (g, g); maintained at group creation')
     prog = sf.load_program()
-    r1(ctx, prog)
-    r2(ctx, prog)
-    r3(ctx, prog)
-    r4(ctx, prog)
-    r5(ctx)
-    r6(ctx, prog)
-    r7(ctx, prog)
+    fns = cf.group_cancel_functions(prog)
+    roots = cf.root_cancel_functions(prog)
+    del _DECLINES[:]
+    if not fns:
+        _defer('no stored function is recognised as "EXISTS(self-and-ancestors walk of (batch, group))" (is_job_group_cancelled): its callers are not decided')
+    # every rule runs even when an earlier one meets a shape it cannot decide: a violation found with positive evidence by a later rule
+    # is still reported (exit 1); otherwise the run ends as ANALYSIS-ERROR (exit 2) with all the undecided constructs listed
+    for rule in (lambda: r1(ctx, prog, fns), lambda: r2(ctx, prog, fns, roots), lambda: r3(ctx, prog, fns, roots), lambda: r4(ctx, prog, fns, roots),
+                 lambda: r5(ctx, fns), lambda: r6(ctx, prog, fns, roots), lambda: r7(ctx, prog)):
+        try:
+            rule()
+        except AnchorRemoved:
+            raise
+        except AnalysisError as ex:
+            _defer(str(ex))
+    if _DECLINES:
+        raise AnalysisError(' || '.join(_DECLINES))
